@@ -49,7 +49,30 @@ pub fn collision_model(b: f64, a: f64, top: u64, n0: f64, n1: f64, n2: f64) -> f
     p
 }
 
-fn trial_fraction<const U16: bool>(params: SetSketchParams, n0: usize, n1: usize, n2: usize, rng: &mut Rng) -> f64 {
+macro_rules! trial_body {
+    ($t:ty, $params:expr, $a:expr, $b:expr, $reuse:expr, $rng:expr) => {{
+        if $reuse {
+            // one sketcher: unrelated set, reinit, A, (signature), reinit, B
+            let mut s = SetSketcher::<$t, u64, FnvHasher>::new($params, Default::default());
+            let m = $params.get_m() as usize;
+            s.sketch_slice(&fresh_ids($rng, (10 * m).min(5000) + 3, 0)).unwrap();
+            s.reinit();
+            s.sketch_slice(&$a).unwrap();
+            let sa = s.get_signature().clone();
+            s.reinit();
+            s.sketch_slice(&$b).unwrap();
+            get_jaccard_index_estimate(&sa, s.get_signature()).unwrap()
+        } else {
+            let mut sa = SetSketcher::<$t, u64, FnvHasher>::new($params, Default::default());
+            let mut sb = SetSketcher::<$t, u64, FnvHasher>::new($params, Default::default());
+            sa.sketch_slice(&$a).unwrap();
+            sb.sketch_slice(&$b).unwrap();
+            get_jaccard_index_estimate(sa.get_signature(), sb.get_signature()).unwrap()
+        }
+    }};
+}
+
+fn trial_fraction<const U16: bool>(params: SetSketchParams, n0: usize, n1: usize, n2: usize, reuse: bool, rng: &mut Rng) -> f64 {
     let ids = fresh_ids(rng, n0 + n1 + n2, 0);
     let mut a: Vec<u64> = ids[..n0 + n1].to_vec();
     let mut b: Vec<u64> = ids[..n0].to_vec();
@@ -57,17 +80,9 @@ fn trial_fraction<const U16: bool>(params: SetSketchParams, n0: usize, n1: usize
     shuffle(&mut a, rng);
     shuffle(&mut b, rng);
     if U16 {
-        let mut sa = SetSketcher::<u16, u64, FnvHasher>::new(params, Default::default());
-        let mut sb = SetSketcher::<u16, u64, FnvHasher>::new(params, Default::default());
-        sa.sketch_slice(&a).unwrap();
-        sb.sketch_slice(&b).unwrap();
-        get_jaccard_index_estimate(sa.get_signature(), sb.get_signature()).unwrap()
+        trial_body!(u16, params, a, b, reuse, rng)
     } else {
-        let mut sa = SetSketcher::<u32, u64, FnvHasher>::new(params, Default::default());
-        let mut sb = SetSketcher::<u32, u64, FnvHasher>::new(params, Default::default());
-        sa.sketch_slice(&a).unwrap();
-        sb.sketch_slice(&b).unwrap();
-        get_jaccard_index_estimate(sa.get_signature(), sb.get_signature()).unwrap()
+        trial_body!(u32, params, a, b, reuse, rng)
     }
 }
 
@@ -103,7 +118,8 @@ pub fn run(rep: &mut Report) {
                     continue;
                 }
                 let u16reg = (hsel >> 8) % 2 == 0;
-                let cell = format!("S/b={}/m={}/{}/{}", b, m, if u16reg { "u16" } else { "u32" }, sname);
+                let reuse = (hsel >> 20) % 3 == 0 && m <= 64;
+                let cell = format!("S/b={}/m={}/{}/{}{}", b, m, if u16reg { "u16" } else { "u32" }, sname, if reuse { "/reused" } else { "" });
                 if !rep.want(&cell) {
                     continue;
                 }
@@ -125,9 +141,9 @@ pub fn run(rep: &mut Report) {
                 let seed = subseed(rep.seed, "C07/S", &[ci]);
                 let (n0, n1, n2) = (*n0, *n1, *n2);
                 let (rs, trials) = staged(seed, tt, 3, &targets, |rng, out| {
-                    out[0] = if u16reg { trial_fraction::<true>(params, n0, n1, n2, rng) } else { trial_fraction::<false>(params, n0, n1, n2, rng) };
+                    out[0] = if u16reg { trial_fraction::<true>(params, n0, n1, n2, reuse, rng) } else { trial_fraction::<false>(params, n0, n1, n2, reuse, rng) };
                 });
-                let case = json!({"b": b, "m": m, "a": a, "q": q, "registers": if u16reg { "u16" } else { "u32" }, "n_both": n0, "n_a_only": n1, "n_b_only": n2, "model_collision_probability": p, "J": n0 as f64 / ntot as f64});
+                let case = json!({"b": b, "m": m, "a": a, "q": q, "registers": if u16reg { "u16" } else { "u32" }, "n_both": n0, "n_a_only": n1, "n_b_only": n2, "one_sketcher_reused_with_reinit": reuse, "model_collision_probability": p, "J": n0 as f64 / ntot as f64});
                 if ci % 13 == 1 {
                     rep.sample(case.clone());
                 }
